@@ -8,7 +8,8 @@
 EXTENDS Naturals, Sequences, FiniteSets, TLC, Json
 
 ObjKind == {"module", "state_dict", "nested", "zero_size", "shared_storage", "mixed_dtypes", "sequential", "deep_module", "many_tensors"}
-Payload == {"plain", "newline", "nonascii", "quotes"}
+Payload == {"plain", "newline", "nonascii", "quotes",
+            "len_chars_lt_bytes", "len_255", "len_256", "len_long"}      \* length boundaries of the text opcodes (characters vs encoded bytes)
 VARIABLES kind, payload, overwrite
 vars == <<kind, payload, overwrite>>
 Init == kind \in ObjKind /\ payload \in Payload /\ overwrite \in BOOLEAN
